@@ -102,7 +102,7 @@ func (c *c01Case) Oracle() (bool, string) {
 }
 
 func (c *c01Case) Sx() string {
-	if c.Fatal != "" {
+	if c.Fatal != "" || c.Opts.MemstoreBytes < 1<<20 {
 		return ""
 	}
 	return sxDbProgram(c.Opts, c.Steps, c.Sweeps, false)
@@ -186,6 +186,23 @@ func genC01(r *rand.Rand, tier string) []Case {
 		}
 		c := &c01Case{Opts: randDbOpts(r), Keys: keys}
 		c.Steps = genDbProgram(r, 5+r.Intn(maxSteps), keys)
+		if i%8 == 5 {
+			// tiny memstore: (almost) every Put rotates by itself, flushes overlap with the next operations;
+			// judged by the reference-map oracle only (the schedule is the implementation's own)
+			c.Opts.MemstoreBytes = []uint64{1, 20, 60}[r.Intn(3)]
+			var st []dbStep
+			for j := 0; j < 40+r.Intn(60); j++ {
+				k := keys[r.Intn(len(keys))]
+				st = append(st, dbStep{Op: "put", K: k, V: []byte(fmt.Sprintf("v%d", j))}, dbStep{Op: "get", K: k})
+				if r.Intn(4) == 0 {
+					st = append(st, dbStep{Op: "del", K: keys[r.Intn(len(keys))]}, dbStep{Op: "get", K: keys[r.Intn(len(keys))]})
+				}
+				if r.Intn(25) == 0 {
+					st = append(st, dbStep{Op: "compact"})
+				}
+			}
+			c.Steps = st
+		}
 		cases = append(cases, c)
 	}
 	return cases
